@@ -186,6 +186,48 @@ CLAIMED.update({
         ref='DESIGN.md section 5 C19'),
 })
 
+TBR_NOTE = ('Trusted: Coq kernel + vm_compute; statsmodels OLS and scipy.stats.t / f are oracles (location-scale family, quantile '
+            'symmetry and monotonicity enter the theorems as explicit premises on the standard quantiles); the exact rational model '
+            'model/TBRMath.v is hand-written and tied to tbr.TBR / TBRMMDiagnostics by executed correspondence (1e-8 relative); '
+            'square roots never enter (scales compared through their squares). No axioms (no real-number axioms: arithmetic is over Q).')
+CLAIMED.update({
+    'C05': dict(
+        text='Coq theorems over exact rationals (props/C05.v): sigma identity (std(y, ddof=2)^2 (1 - corr^2) = OLS residual variance), '
+             'required impact^2 = (t_sig + t_power)^2 x posterior variance of the cumulative effect at the stated displacement, lift '
+             'recovery, lower bound at power, linear scaling, shift invariance, monotone decrease in corr^2 for a positive multiplier. '
+             'Executed: required impact vs the real TBR post-analysis of a displaced experiment frame (1e-8), planted-lift recovery, '
+             'lower bound, scaling / shift / monotonicity on the implementation, and required_impact / estimate_required_impact / tbrfit '
+             'against the rational model. Open known finding: negative multiplier when sig_level + power_level < 1.',
+        note=TBR_NOTE, technique='Rocq/Coq proof (field identities over Q by induction on the series) + executed correspondence + '
+        'direct oracle', ref='DESIGN.md section 5 C05'),
+    'C06': dict(
+        text='Coq theorems over exact rationals (props/C06.v): the variance propagated from the OLS covariance is Kerman eq. 5 on every '
+             'analysed day; group totals are invariant under row permutation, splitting a group over geos and rows of other groups; '
+             'summary ordering and precision for tail probability <= 1/2 (refuted above 1/2: known finding); design-side estimate and '
+             'scale agree with the analysis side. Executed: posterior location / scale of every analysed day against the rational model '
+             '(1e-8), df, layout independence (shuffle, split, unassigned geo), summary rows for random (level, tails, threshold, '
+             'rescale), tbrfit vs TBR.',
+        note=TBR_NOTE, technique='Rocq/Coq proof (field identities, permutation invariance, ordered-field facts) + executed '
+        'correspondence with exact rationals + direct oracle', ref='DESIGN.md section 5 C06'),
+    'C07': dict(
+        text='Coq theorems (props/C07.v) for the fixed-cost scenario: iROAS quantiles are response quantiles divided by the cost, '
+             'incremental-response bounds are iROAS bounds times the cost, unit changes multiply every figure by b/a, ordering for a '
+             'positive cost; a negative cost gives a negative scale (refuted: known finding). Executed on frames x six cost patterns x '
+             'levels x tails x thresholds: coherence with TBR.summary, scenario label, unit change (powers of two), determinism of the '
+             'variable-cost report w.r.t. random_state. Open known findings: negative cost, one-tailed level < 1/2, variable-cost mean '
+             'outside percentile bounds.',
+        note=TBR_NOTE + ' Variable-cost scenario (simulation) is tested only: partial.',
+        technique='Rocq/Coq proof (field identities over Q) + direct oracle on the implementation',
+        ref='DESIGN.md section 5 C07'),
+    'C18': dict(
+        text='Coq theorems (props/C18.v): counterfactual + difference = observed, pre-period differences are the OLS residuals and sum '
+             'to zero (so the running sum restarts at the first test date), pointwise bounds bracket the estimate iff the cumulative '
+             'scale does not decrease (with a computed witness that it can decrease: known finding), cumulative ordering. Executed on '
+             'frames with cooldown (one in four with a control spike), both metrics, both scenarios, levels, tails.',
+        note=TBR_NOTE, technique='Rocq/Coq proof (OLS residual identity, ordered-field characterisation) + direct oracle',
+        ref='DESIGN.md section 5 C18'),
+})
+
 NOT_YET = 'check not built yet in this revision (model under construction; see DESIGN.md section 10)'
 NA = {}
 
